@@ -1,2 +1,65 @@
-(* Property C01 — statements follow. *)
-From Nitro Require Import Opt.Run.
+(* Property C01 — the option parser never silently ignores a command-line argument.
+   Only statements; every proof is `exact <lemma>`.  `parse` is the extracted model (Opt/ParserModel.parse_g with the
+   documented vocabulary); `render`, `wf_items`, `assign` are the specification (Opt/ParserSpec.v). *)
+From Coq Require Import List Arith Bool ZArith.
+From Nitro Require Import Base.Bytes Base.Res Opt.Token Opt.Decl Opt.ParserModel Opt.ParserCore Opt.ParserSpec Opt.Vocab Opt.Run
+  Opt.Corollaries Opt.Sample.
+Import ListNotations.
+
+(* A successful parse accounts for EVERY token: the argument vector is exactly the spelling (render) of a legal item list
+   (options with their values, bundles of declared toggle letters, long toggles, negations, positionals, the tail after `--`)
+   and the result is the assignment those items spell — nothing in the vector is outside the items, no item is dropped. *)
+Theorem C01_parse_accounts_for_every_token : forall d e st args r,
+  wf_decl d = true -> no_clash d = true -> aligned d st ->
+  snd (parse d e st args) = Ok r ->
+  exists items tail, wf_items d items tail = true /\ render d items tail = args /\ assign d e items tail = Ok r.
+Proof. exact (accounts_for_every_token truthy falsy). Qed.
+Print Assumptions C01_parse_accounts_for_every_token.
+
+(* every letter of a bundled short token is a declared toggle that carries that letter *)
+Theorem C01_bundle_is_declared_toggles : forall d items tail ts,
+  wf_items d items tail = true -> In (ItBundle ts) items ->
+  ts <> [] /\ forall t, In t ts -> exists td c, nth_error (d_toggles d) t = Some td /\ t_short td = Some c.
+Proof. exact bundle_is_declared_toggles. Qed.
+Print Assumptions C01_bundle_is_declared_toggles.
+
+(* ... and it was counted: the reported count of a toggle that occurs is its number of occurrences (each letter, each long spelling) *)
+Theorem C01_result_reports_the_items : forall d e items tail r,
+  assign d e items tail = Ok r ->
+  (forall i o, nth_error (d_opts d) i = Some o ->
+     nth_error (r_opts r) i = Some (o_name o, src_val (opt_source e o (opt_values i items)))
+     /\ src_bad (opt_source e o (opt_values i items)) = false) /\
+  (forall i o, nth_error (d_multis d) i = Some o ->
+     nth_error (r_multis r) i = Some (m_name o, match src_val (multi_source e o (multi_values i items)) with Some l => l | None => [] end)
+     /\ src_bad (multi_source e o (multi_values i items)) = false) /\
+  (forall j t, nth_error (d_toggles d) j = Some t ->
+     nth_error (r_toggles r) j = Some (t_name t, match src_val (toggle_source truthy falsy e t (occurrences j items) (negations j items)) with Some z => z | None => 0%Z end)
+     /\ src_bad (toggle_source truthy falsy e t (occurrences j items) (negations j items)) = false) /\
+  r_pos r = inline_pos items ++ match tail with Some ps => ps | None => [] end.
+Proof. exact (assignment_reports truthy falsy). Qed.
+Print Assumptions C01_result_reports_the_items.
+
+(* anything else is the user-input error or (inconsistent declaration only) the developer error — never a third outcome *)
+Theorem C01_otherwise_user_error : forall d e st args,
+  wf_decl d = true -> no_clash d = true -> aligned d st ->
+  (exists r, snd (parse d e st args) = Ok r) \/ snd (parse d e st args) = Err UserError
+  \/ (snd (parse d e st args) = Err DevError /\ consistent d = false).
+Proof. exact (outcome_trichotomy truthy falsy). Qed.
+Print Assumptions C01_otherwise_user_error.
+
+Module Examples.
+Import Strings.String.
+Local Open Scope string_scope.
+(* the hypotheses are satisfiable and the conclusion is not trivial: a 10-token vector *)
+Example C01_ex_hyps : wf_decl sample_decl = true /\ no_clash sample_decl = true /\ consistent sample_decl = true
+                      /\ aligned sample_decl (init_st sample_decl).
+Proof. repeat split; vm_compute; reflexivity. Qed.
+Example C01_ex_parse : exists r, snd (parse sample_decl sample_env (init_st sample_decl) sample_args) = Ok r
+                                 /\ List.length sample_args = 10 /\ map snd (r_toggles r) = [1%Z; 3%Z].
+Proof. eexists. vm_compute. repeat split. Qed.
+(* -vz with z undeclared, and -vo with an option letter in the bundle, are rejected (pre-repair they were accepted) *)
+Example C01_ex_unknown_letter : snd (parse sample_decl sample_env (init_st sample_decl) [B "--out=x"; B "-vz"]) = Err UserError.
+Proof. vm_compute. reflexivity. Qed.
+Example C01_ex_option_letter_in_bundle : snd (parse sample_decl sample_env (init_st sample_decl) [B "-vo"; B "file"]) = Err UserError.
+Proof. vm_compute. reflexivity. Qed.
+End Examples.
